@@ -71,9 +71,35 @@ func goEnv() []string {
 	return env
 }
 
+// treeOverride: VERIF_TREE=<dir> makes the driver build the monitors against ANOTHER goalign tree (a scratch
+// worktree carrying a seeded change or a candidate fix) instead of /repo, without touching /repo: the evidence
+// file is not written then. Not used by the registered checks.
+func treeOverride() string { return os.Getenv("VERIF_TREE") }
+
+func repoPath() string {
+	if t := treeOverride(); t != "" {
+		return t
+	}
+	return "/repo"
+}
+
 func build(id string, race bool) (string, error) {
 	bin := filepath.Join(verifDir, ".bin", strings.ToLower(id))
 	args := []string{"build", "-tags", "verif"}
+	if t := treeOverride(); t != "" {
+		h := sha1.Sum([]byte(t))
+		dir := filepath.Join(verifDir, ".scratch", fmt.Sprintf("tree-%x", h[:4]))
+		os.MkdirAll(dir, 0755)
+		gm, err := os.ReadFile(filepath.Join(verifDir, "go.mod"))
+		if err != nil {
+			return "", err
+		}
+		os.WriteFile(filepath.Join(dir, "go.mod"), bytes.ReplaceAll(gm, []byte("=> /repo"), []byte("=> "+t)), 0644)
+		gs, _ := os.ReadFile(filepath.Join(verifDir, "go.sum"))
+		os.WriteFile(filepath.Join(dir, "go.sum"), gs, 0644)
+		args = append(args, "-modfile", filepath.Join(dir, "go.mod"))
+		bin += fmt.Sprintf("-tree-%x", h[:4])
+	}
 	if race {
 		bin += "-race"
 		args = append(args, "-race")
@@ -242,7 +268,7 @@ func runShard(id, bin string, cfg propCfg, race bool, tier string, seed uint64, 
 		ef, _ := os.Create(errf)
 		cmd.Stderr = ef
 		cmd.Stdout = ef
-		cmd.Env = append(os.Environ(), "VERIF_SCRATCH="+scratch, "VERIF_REPO=/repo")
+		cmd.Env = append(os.Environ(), "VERIF_SCRATCH="+scratch, "VERIF_REPO="+repoPath())
 		if race {
 			cmd.Env = append(cmd.Env, "GORACE=halt_on_error=1 exitcode=66")
 		}
@@ -401,6 +427,9 @@ func check(id, tier string, seed uint64) int {
 	start := time.Now()
 	cfg := cfgOf(id)
 	evPath := filepath.Join(verifDir, "evidence", id+".json")
+	if treeOverride() != "" {
+		evPath = filepath.Join(verifDir, ".scratch", "evidence-of-another-tree-"+id+".json")
+	}
 	os.Remove(evPath)
 	bin, err := build(id, false)
 	if err != nil {
@@ -726,7 +755,7 @@ func replay(path string) int {
 	scratch, _ := os.MkdirTemp(filepath.Join(verifDir, ".scratch"), "replay-")
 	defer os.RemoveAll(scratch)
 	cmd.Dir = scratch
-	cmd.Env = append(os.Environ(), "VERIF_SCRATCH="+scratch, "VERIF_REPO=/repo")
+	cmd.Env = append(os.Environ(), "VERIF_SCRATCH="+scratch, "VERIF_REPO="+repoPath())
 	if rp.Race {
 		cmd.Env = append(cmd.Env, "GORACE=halt_on_error=1 exitcode=66")
 	}
